@@ -71,6 +71,23 @@ fn small_entries(ctx: &mut Ctx, s: &str, case: &Value) {
     note_panic(ctx, "KeyForDecoding::from_rsa_der", &r, case);
     let r = real::guard(|| sdjwt::KeyForDecoding::from_ec_der(s.as_bytes()).map(|_| ()));
     note_panic(ctx, "KeyForDecoding::from_ec_der", &r, case);
+    // the signing-key constructors take text / bytes from a file or a configuration
+    let r = real::guard(|| sdjwt::KeyForEncoding::from_base64_secret(s).map(|_| ()));
+    note_panic(ctx, "KeyForEncoding::from_base64_secret", &r, case);
+    let r = real::guard(|| sdjwt::KeyForEncoding::from_rsa_pem(s.as_bytes()).map(|_| ()));
+    note_panic(ctx, "KeyForEncoding::from_rsa_pem", &r, case);
+    let r = real::guard(|| sdjwt::KeyForEncoding::from_ec_pem(s.as_bytes()).map(|_| ()));
+    note_panic(ctx, "KeyForEncoding::from_ec_pem", &r, case);
+    let r = real::guard(|| sdjwt::KeyForEncoding::from_ed_pem(s.as_bytes()).map(|_| ()));
+    note_panic(ctx, "KeyForEncoding::from_ed_pem", &r, case);
+    let r = real::guard(|| sdjwt::KeyForEncoding::from_rsa_der(s.as_bytes()).map(|_| ()));
+    note_panic(ctx, "KeyForEncoding::from_rsa_der", &r, case);
+    let r = real::guard(|| sdjwt::KeyForEncoding::from_ec_der(s.as_bytes()).map(|_| ()));
+    note_panic(ctx, "KeyForEncoding::from_ec_der", &r, case);
+    let r = real::guard(|| sdjwt::KeyForEncoding::from_ed_der(s.as_bytes()).map(|_| ()));
+    note_panic(ctx, "KeyForEncoding::from_ed_der", &r, case);
+    let r = real::guard(|| sdjwt::KeyForDecoding::from_ed_der(s.as_bytes()).map(|_| ()));
+    note_panic(ctx, "KeyForDecoding::from_ed_der", &r, case);
     if let Ok(v) = serde_json::from_str::<Value>(s) {
         let r = real::guard(|| sdjwt::Jwk::from_value(v.clone()).map(|_| ()));
         note_panic(ctx, "Jwk::from_value", &r, case);
